@@ -161,7 +161,7 @@ func RunSoloScript(r sim.Src, mons []*sim.Mon, keepLog bool, sh SoloShape) *Solo
 	for i := 0; i < steps && len(s.W.Viols) == 0 && !nd.Crashed; i++ {
 		s.W.Step = i + 1
 		d := nd.D
-		switch pick(r, "step", 14, 10, 14, 14, 14, 6, 6, 8, 4, 4, 8, 4) {
+		switch pick(r, "step", 14, 10, 14, 14, 14, 6, 6, 8, 4, 4, 8, 4, 4) {
 		case 0: // advance the clock
 			dt := tpb * time.Duration(1+r.Intn("dt", 40)) / 20
 			if r.Intn("fine", 3) == 0 {
@@ -259,6 +259,18 @@ func RunSoloScript(r sim.Src, mons []*sim.Mon, keepLog bool, sh SoloShape) *Solo
 				if j := nextPeer(); j >= 0 {
 					nd.Receive(s.Response(j, d.ViewNumber, vt.Sum([]byte{byte(i), 0xe})))
 					out.Classes["response_before_own_proposal"]++
+				}
+			}
+		case 12: // a commit or pre-commit that reaches the primary before it has proposed (reordered, replayed or forged:
+			// it cannot be for the proposal the node is going to make)
+			if d.IsPrimary() && !d.RequestSentOrReceived() && !d.BlockSent() {
+				if j := nextPeer(); j >= 0 {
+					if s.W.Cfg.AMEVOn(d.BlockIndex) && r.Intn("earlypc", 3) > 0 {
+						nd.Receive(s.BadPreCommit(j, d.ViewNumber, i))
+					} else {
+						nd.Receive(s.BadCommit(j, d.ViewNumber, i))
+					}
+					out.Classes["commit_before_own_proposal"]++
 				}
 			}
 		default: // the clock steps back
